@@ -880,6 +880,15 @@ func checkFullRead(c *Ctx, rule string, pkgs ...string) {
 					R.Fail(rule, key, P.InstrPos(call), "the transport is read through a throw-away bufio.Reader: it reads ahead of the item it is created for and the surplus (the start of the next item) is dropped with it", nil)
 					return
 				}
+				// a transport handed in for one call (a parameter other than the receiver) and buffered in the receiver: the
+				// read-ahead stays in an object the caller does not read the rest of the stream through (the handshake
+				// helper that reads C0..C2 through its own buffer swallows the first messages of the session)
+				if fn.Signature.Recv() != nil && len(fn.Params) > 0 && len(call.Call.Args) > 0 {
+					if par, isPar := core.StripConv(call.Call.Args[0]).(*ssa.Parameter); isPar && par != fn.Params[0] && keptInReceiver(call, fn.Params[0], 0) {
+						R.Fail(rule, key, P.InstrPos(call), "the transport passed in as "+core.ParamName(par)+" for this call is wrapped in a bufio.Reader that is kept in the receiver ("+types.TypeString(fn.Params[0].Type(), nil)+"): it reads ahead of what the call consumes, and whoever reads the transport next (the message reader built on the same transport) never sees those bytes", nil)
+						return
+					}
+				}
 			}
 			if why, ok := allowed[name]; ok {
 				R.OK(rule, key, P.InstrPos(call), "transport read through "+name+" ("+why+")")
@@ -1186,6 +1195,34 @@ func retained(v ssa.Value, d int) bool {
 				if retained(x, d+1) {
 					return true
 				}
+			}
+		}
+	}
+	return false
+}
+
+// keptInReceiver: v (or a wrapper built from it) is stored into memory rooted at the receiver recv.
+func keptInReceiver(v ssa.Value, recv *ssa.Parameter, d int) bool {
+	if d > 4 || v.Referrers() == nil {
+		return false
+	}
+	for _, r := range *v.Referrers() {
+		switch x := r.(type) {
+		case *ssa.Store:
+			if x.Val == v && core.PathRoot(x.Addr) == ssa.Value(recv) {
+				return true
+			}
+		case *ssa.MakeInterface:
+			if keptInReceiver(x, recv, d+1) {
+				return true
+			}
+		case *ssa.ChangeInterface:
+			if keptInReceiver(x, recv, d+1) {
+				return true
+			}
+		case *ssa.Phi:
+			if keptInReceiver(x, recv, d+1) {
+				return true
 			}
 		}
 	}
